@@ -23,7 +23,7 @@ import lib
 import sim
 
 PID = "C17"
-PROPS = ["Aldy.Props.C17"]
+PROPS = ["Aldy.Props.C17", "Aldy.Props.C17Stages"]
 TRUSTED_EXTRA = ["pickle / gzip / tar", "pysam, the read simulator", "argparse / logbook of the CLI"]
 ASSUMPTIONS = []
 
@@ -103,6 +103,29 @@ def canon_sols(res):
     return out
 
 
+def evidence_equiv(s1, s3):
+    """`CovEquiv` of Props/C17Stages.lean on two real samples: same sites and observed alleles in the same order,
+    observation lists equal up to order; same indel table, region depths and multi-site read fragments"""
+    c1, c3 = s1.coverage._coverage, s3.coverage._coverage
+    if list(c1) != list(c3):
+        return f"sites differ: {len(c1)} vs {len(c3)} (first difference {next((a, b) for a, b in zip(list(c1) + [None], list(c3) + [None]) if a != b)})"
+    for p in c1:
+        if list(c1[p]) != list(c3[p]):
+            return f"site {p}: observed alleles {list(c1[p])} vs {list(c3[p])}"
+        for o in c1[p]:
+            if collections.Counter(map(tuple, c1[p][o])) != collections.Counter(map(tuple, c3[p][o])):
+                return f"site {p} allele {o}: observations differ as multisets ({len(c1[p][o])} vs {len(c3[p][o])})"
+    if s1.coverage._indels != s3.coverage._indels:
+        return "indel support differs"
+    if s1.coverage._region_coverage != s3.coverage._region_coverage:
+        return "region depths differ"
+    f1 = sorted(sorted(v.items()) for v in s1.phases.values() if len(v) > 1)
+    f3 = sorted(sorted(v.items()) for v in s3.phases.values() if len(v) > 1)
+    if f1 != f3:
+        return "multi-site read fragments differ"
+    return None
+
+
 def tie(ctx):
     from aldy.genotype import genotype
     from aldy.common import AldyException
@@ -111,7 +134,7 @@ def tie(ctx):
     r = lib.rng("c17")
     quick = ctx["tier"] == "quick"
     d = sim.scratch_dir()
-    fam = {k: {"cases": 0, "disagreements": []} for k in ("dump_format", "dump_replay")}
+    fam = {k: {"cases": 0, "disagreements": []} for k in ("dump_format", "dump_replay", "replay_evidence_equivalent")}
     violations = []
     stats = collections.Counter()
     reqs, metas = [], []
@@ -185,6 +208,20 @@ def tie(ctx):
                 reqs.append({"op": "dump", "sites": [[[lib.frac(a), lib.frac(b)] for a, b in l] for l in lists],
                              "fragments": [[[p, o] for p, o in v.items()] for v in s_raw.phases.values()]})
                 metas.append((inp, g.name, keys, normC, mutsC, norm2, muts2, phases, s_raw.phases, name, s2.name, s2.phases))
+                # ---- (4) hypothesis of the CovEquiv theorems on the real objects: the evidence of the replayed
+                # sample is the original evidence up to the order of the observations of a site ------------------
+                fam["replay_evidence_equivalent"]["cases"] += 1
+                try:
+                    import tarfile
+                    tarp = os.path.join(d, f"dbg{k}_{g.name}.tar.gz")
+                    with tarfile.open(tarp, "w:gz") as tf:
+                        tf.add(os.path.dirname(prefix), arcname="dbg")
+                    s3 = Sample(g, None, tarp)
+                    bad = evidence_equiv(s1, s3)
+                except Exception as e:
+                    bad = f"loading the dump raised {type(e).__name__}: {e}"
+                if bad:
+                    fam["replay_evidence_equivalent"]["disagreements"].append({"why": f"{g.name}: {bad}", "input": inp})
                 distinct.add(lib.canon_hash([y, k]))
             if len(samples) < 2:
                 samples.append({"genes": [g.name for _, g, _ in genes], "gap": gap, "diplotypes": {os.path.basename(kk3): [s.get_major_diplotype() for s in v] for kk3, v in r1.items()},
